@@ -17,6 +17,7 @@ mod scen_lev;
 mod scen_mem;
 mod scen_merge;
 mod scen_sink;
+mod scen_step;
 mod taut;
 
 use common::*;
@@ -113,6 +114,13 @@ fn record(args: &Args) {
         "c17" => {
             let mut log = Log::create(&out);
             scen_lev::c17(&mut log, seed, &tier);
+            let (n, counts) = log.finish();
+            let panics = counts.get("Panic").cloned().unwrap_or(0);
+            println!("{}", json!({"scenario": scen, "events": n, "counts": counts, "panics": panics}));
+        }
+        "stepmap" | "stepset" => {
+            let mut log = Log::create(&out);
+            scen_step::step(&mut log, seed, &tier, scen == "stepset");
             let (n, counts) = log.finish();
             let panics = counts.get("Panic").cloned().unwrap_or(0);
             println!("{}", json!({"scenario": scen, "events": n, "counts": counts, "panics": panics}));
